@@ -6,5 +6,6 @@ include!("emu_mods.rs");
 
 pub mod checks;
 pub mod engine;
+pub mod fuzzapi;
 pub mod gen;
 pub mod refmodel;
